@@ -50,6 +50,7 @@ VERIFY = CONTRACTS
 # (3) lemma over (1)+(2): for separator-free, non-empty segments the join is injective - two different paths (of the same
 #     or of different lengths up to 3) never share a flattened name, so designer names "chosen to collide" cannot.
 # ---------------------------------------------------------------------------------------------------------------------
+@guarded("koi", "hdl21.flatten:walk")
 def walk_guard_obligations():
     import ast
     from pyvc import loader
@@ -126,6 +127,7 @@ def join_injective_lemmas():
     return out
 
 
+@guarded("koi", "hdl21.flatten:FlattenedInstance.make_name")
 def make_name_obligations(max_arity=3):
     """FlattenedInstance.make_name(): ':'.join of the path's instance names ('_' for an unnamed one), paths of 1-3"""
     from pyvc import loader
